@@ -270,10 +270,26 @@ package datastore
 //@ pred skippedUpdate(u) = len(u.path) == 0 || addressesRoot(u.path)
 // C14: what the cache returns is filtered element by element against the requested paths (the cache matches byte
 // prefixes and reads key values as patterns: an entry whose name merely starts with a requested one comes back too)
-//@ extern slices.Equal
+// one element: equal, or the requested one holds a '*' (a wildcard key value, which the cache reads as a pattern too).
+// What a pattern matches is left to regexp; pinned are the two facts the filter rests on: an element matches itself,
+// and without a '*' nothing else matches
+//@ extern strings.Contains
 //@   pure
-//@   ensures result == (len(s1) == len(s2) && forall(i, 0, len(s1), s1[i] == s2[i]))
-//@ pred isBelow(r, stored) = len(r) <= len(stored) && forall(j, 0, len(r), r[j] == stored[j])
+//@ func elementMatches
+//@   props C14
+//@   pure
+//@   modifies nothing
+//@   ensures an_element_matches_itself [C14]: requested == stored ==> result
+//@   internal without_a_wildcard_only_the_same_element_matches [C14]: requested != stored && called(Contains) && !callres(Contains, 0) ==> !result
+//@   internal only_a_star_is_a_wildcard [C14]: called(Contains) ==> callarg(Contains, 0, 0) == requested && callarg(Contains, 0, 1) == "*"
+//@ func elementsMatch
+//@   props C14
+//@   pure
+//@   modifies nothing
+//@   requires len(requested) <= len(stored)
+//@   ensures every_element_matches [C14]: result == forall(j, 0, len(requested), elementMatches(requested[j], stored[j]))
+//@   loop 0 invariant forall(j, 0, $n, elementMatches(requested[j], stored[j]))
+//@ pred isBelow(r, stored) = len(r) <= len(stored) && forall(j, 0, len(r), elementMatches(r[j], stored[j]))
 //@ func atOrBelowRequested
 //@   props C14
 //@   pure
@@ -391,6 +407,8 @@ package datastore
 //@   let intendedState = req.GetDatastore().GetType() == sdcpb.Type_INTENDED && req.GetDataType() == sdcpb.DataType_STATE
 //@   let npaths = len(req.GetPath())
 //@   internal intended_state_is_refused: intendedState ==> r0 != nil && noReader()
+//@   internal a_request_that_selects_no_store_is_refused [C14]: called(getStores) && len(callres(getStores, 0)) == 0 ==> r0 != nil && noReader()
+//@   internal the_stores_of_the_request_are_looked_at [C14]: !intendedState ==> called(getStores) && callarg(getStores, 0, 0) == req
 //@   internal unknown_encoding_is_refused: !knownEncoding(enc) ==> r0 != nil && noReader()
 //@   loop 0 invariant every_path_so_far_is_valid [C14]: err == nil
 //@   internal invalid_path_is_refused: called(validatePath) && callres(validatePath) != nil ==> r0 != nil && noReader()
@@ -401,7 +419,7 @@ package datastore
 //@   internal json_flavour_second_site: called(handleGetDataUpdatesJSON, 1) ==> callarg(handleGetDataUpdatesJSON, 1, 6) == (enc == sdcpb.Encoding_JSON_IETF)
 //@   loop 1 invariant every_requested_path_is_read [C14]: len(paths) == $n && forall(j, 0, $n, paths[j] == utils.ToStrings(req.GetPath()[j], false, false))
 //@   internal reader_error_is_returned: called(handleGetDataUpdatesSTRING) ==> r0 == callres(handleGetDataUpdatesSTRING)
-//@   internal a_valid_request_is_read: knownEncoding(enc) && !intendedState && npaths == 0 ==>
+//@   internal a_valid_request_is_read: knownEncoding(enc) && !intendedState && npaths == 0 && len(callres(getStores, 0)) > 0 ==>
 //@            called(handleGetDataUpdatesSTRING) || called(handleGetDataUpdatesJSON) || called(handleGetDataUpdatesPROTO)
 
 // ---------------------------------------------------------------------------
